@@ -90,6 +90,10 @@ func genBound(r *core.Rand) *string {
 	if r.Chance(0.25) {
 		return nil
 	}
+	if r.Chance(0.06) {
+		e := "" // an empty bound that is not nil: as an end bound it admits no key
+		return &e
+	}
 	s := core.Hex(genKey(r, 3))
 	return &s
 }
